@@ -47,7 +47,7 @@ _QUERY_ASSUME = ["TLC and the community modules are correct",
                  "the harness concretisation of documents (8-word vocabulary, tags, ACL metadata shapes, integer embeddings) and its projection of hits",
                  "ranking is not judged: hits are compared as sets / by order-independent contracts",
                  "integer-valued 4-dimensional embeddings so that squared L2 distances are exact in f32"]
-for _p in ("C09", "C10", "C11", "C12", "C13", "C16", "C28"):
+for _p in ("C09", "C10", "C11", "C12", "C13", "C16", "C28", "C40"):
     CHECKS[_p] = ("eng_query", "model_checking", _QUERY_ASSUME)
 CHECKS["C08"] = (("eng_core", "eng_query"), "model_checking", _CORE_ASSUME + _QUERY_ASSUME[1:3])
 
